@@ -617,9 +617,10 @@ def pattern_reference(kind, pattern, text):
     members = kind if isinstance(kind, list) else [kind]
     for k in members:
         if member_ok(k, text):
-            # (a list of patterns = one restriction level per pattern: every level is in force)
-            return all(re.fullmatch(p, norm(k, text)) is not None for p in (pattern if isinstance(pattern, list) else [pattern]))
-    return False
+            # a list of patterns = one restriction level per pattern; the single matches are taken from Python re, the
+            # model (Options.chain_ok) combines the levels
+            return [re.fullmatch(p, norm(k, text)) is not None for p in (pattern if isinstance(pattern, list) else [pattern])]
+    return None
 
 
 def subject_pattern(case):
@@ -660,12 +661,16 @@ def check_patterns(ctx):
             for ch in (chains if not ctx.quick() else ctx.rng.sample(chains, 8)):
                 cases.append({'kind': kind, 'pattern': ch, 'version': version, 'texts': PAT_TEXTS})
     impl = common.pool_map(subject_pattern, cases)
-    for c, o in zip(cases, impl):
+    refs = [[pattern_reference(c['kind'], c['pattern'], t) for t in c['texts']] for c in cases]
+    # one model term per case: the verdict of every text (no member accepts the text: false)
+    terms = [coq_list(['false' if r is None else '(union_check_all bool (fun p _ => p) %s [])'
+                       % coq_list([coq_list(['true' if b else 'false']) for b in r]) for r in rs]) for rs in refs]
+    model = common.coq_eval('C02p', 'From XV Require Import Base Datatypes Options.', '', terms, shard=60)
+    for c, o, ms in zip(cases, impl, model):
         if isinstance(o, dict):
             ctx.violation('pattern subject failed: %s' % o.get('harness_exception'), {'kind': 'pattern', 'case': c}, no_input=True)
             continue
-        for t, v in zip(c['texts'], o):
-            want = pattern_reference(c['kind'], c['pattern'], t)
+        for t, v, want in zip(c['texts'], o, ms):
             ctx.count(('pat', json.dumps(c['kind']), json.dumps(c['pattern']), c['version'], t), nontrivial=len(t) > 0)
             if v != want:
                 ctx.violation('restriction(%s, pattern=%r) (XSD %s): text %r is %s, the pattern on the normalised text says %s'
